@@ -6,6 +6,7 @@ import Driver.Layout.Main
 import Driver.Misc.Main
 import Driver.Conc.Main
 import Driver.GCMon.Main
+import Driver.GCWeak.Main
 /-!
 # `mmtk_model`: the executable model behind the line protocol
 
@@ -23,6 +24,7 @@ structure St where
   misc : Driver.Misc.St := {}
   conc : Driver.Conc.St := {}
   gcmon : Driver.GCMon.Pkg.St := {}
+  gcweak : Driver.GCWeak.Pkg.St := {}
 
 def step (st : St) (line : String) : St × Option String :=
   match tokens line with
@@ -55,6 +57,9 @@ def step (st : St) (line : String) : St × Option String :=
     | none =>
     match Driver.GCMon.Pkg.step st.gcmon toks with
     | some (s, o) => ({ st with gcmon := s }, some o)
+    | none =>
+    match Driver.GCWeak.Pkg.step st.gcweak toks with
+    | some (s, o) => ({ st with gcweak := s }, some o)
     | none => (st, some "bad-op")
 
 partial def loop (h : IO.FS.Stream) (out : IO.FS.Stream) (st : St) : IO Unit := do
